@@ -42,12 +42,21 @@ def run(ctx):
             net = netgen.random_net(rng, dcline=False, slack_gen=rng.random() < 0.2, n_ext=rng.choice([1, 2]))
             if variant == "gen-at-slack":
                 pp.create_gen(net, int(net.ext_grid.bus.iloc[0]), p_mw=rng.choice([5., 20.]), vm_pu=float(net.ext_grid.vm_pu.iloc[0]))
+        if rng.random() < 0.3:
+            # a conductance directly at the slack bus
+            sb = int(net.ext_grid.bus.iloc[0])
+            if rng.random() < 0.5:
+                pp.create_shunt(net, sb, q_mvar=rng.choice([0., -0.2]), p_mw=rng.choice([0.5, 1.15]))
+            else:
+                pp.create_ward(net, sb, ps_mw=0., qs_mvar=0., pz_mw=rng.choice([0.4, 0.9]), qz_mvar=0.)
         ctx.hist("variant", variant)
         dc = rng.random() < (0.25 if variant != "gen-at-slack" else 0.6)
         opts = dict(trafo_model=rng.choice(["t", "pi"]), calculate_voltage_angles=rng.random() < 0.8,
                     numba=(rng.random() < 0.5 or variant == "single-slack-resistive"))
         if not dc:
             opts["voltage_depend_loads"] = False          # (the default is True; the ZIP findings are C01's)
+            if rng.random() < 0.3:
+                opts.update(algorithm=rng.choice(["bfsw", "iwamoto_nr", "fdbx"]), max_iteration=200)
         case = {"options": opts, "dc": dc, "net_json": pp.to_json(net)}
         try:
             with core.quiet():
@@ -92,12 +101,26 @@ def run(ctx):
         ctx.count(case["net_json"] + json.dumps(opts), nontrivial=n_br >= 3)
         if abs(total - losses) > 1e-5 * max(1.0, len(net.bus)):
             key = "dc-conservation" if dc else "conservation"
-            if dc and c01.node_balance(net)[0] and any("shunt" in v[2] or "ward" in v[2] or "xward" in v[2] for v in c01.node_balance(net)[0].values()):
-                key = "dc-shunt-at-pv-bus"
+            if dc:
+                # the recorded finding has a definite size: constant-impedance parts at voltage-controlled buses are reported with
+                # the set-point voltage while the DC solution balances them at 1 pu
+                exp = 0.0
+                vmb = net.res_bus.vm_pu
+                for tab, col in (("shunt", None), ("ward", "pz_mw"), ("xward", "pz_mw")):
+                    for i, r_ in net[tab].iterrows():
+                        vm = float(vmb.at[r_.bus]) if r_.bus in vmb.index else float("nan")
+                        if not bool(r_.in_service) or math.isnan(vm):
+                            continue
+                        if col is None:
+                            exp += float(net.res_shunt.p_mw.at[i]) * (1 - 1 / vm ** 2)
+                        else:
+                            exp += float(r_[col]) * (vm ** 2 - 1)
+                if abs(abs(total - losses) - abs(exp)) <= 1e-6 * max(1.0, len(net.bus)) and abs(exp) > 0:
+                    key = "dc-shunt-at-pv-bus"
             ctx.failure(key, f"generation - consumption = {total!r} MW, sum of the reported branch losses = {losses!r} MW", case)
         ctx.sample({"options": opts, "dc": dc, "total": total, "losses": losses}, cap=3)
-        if dc:
-            continue
+        if dc or "algorithm" in opts:
+            continue          # (the correspondence reads the Newton-Raphson solver's internal voltage vector)
         ppci = net._ppc["internal"]
         if not all(k2 in ppci for k2 in ("branch", "bus", "V")) or ppci["branch"].shape[0] > 14 or len(reqs) >= ctx.budget(10, 60):
             continue
